@@ -1,7 +1,7 @@
 """C17 — encoders/decoders are inverse and match their standards (harness/h_codec.c)."""
 
 TARGETS = {
-    "h_codec": dict(
+    "h_codec": dict(repo_opt="-O0", 
         harness=["h_codec.c"],
         engine=["vf.c", "ref/ref_codec.c"],
         shims=[],
